@@ -57,6 +57,18 @@ theorem graphFromFileContent_eq (t : Str) : graphFromFileContent t = graphFromMo
   unfold graphFromFileContent graphFromMolfileText
   rw [splitLines_universalNewlines]
 
+/-- **`graph_from_file(path)`**: a path whose suffix is `.mol` is read as its decoded content; any other suffix is
+refused with `IOError` (`OSError`), whatever the file contains -/
+theorem graphFromFile_spec (suffix t : Str) :
+    (suffix = cs ".mol" → graphFromFile suffix t = graphFromMolfileText t) ∧
+    (suffix ≠ cs ".mol" → graphFromFile suffix t = .error .osError) := by
+  unfold graphFromFile
+  constructor
+  · intro h
+    rw [if_neg (by simp [h]), graphFromFileContent_eq]
+  · intro h
+    rw [if_pos (by simpa using h)]
+
 /-- non-vacuity: the translation does change the text -/
 theorem universalNewlines_example :
     universalNewlines ['a', '\r', '\n', 'b', '\r', 'c', '\n'] = ['a', '\n', 'b', '\n', 'c', '\n'] := by
